@@ -175,11 +175,24 @@ Proof.
   apply good_bind; [exact Hh|]. intros r. apply good_seq; [apply good_hit0|apply good_ret].
 Qed.
 
+Lemma good_tween_x l sc pin pout sr h :
+  (forall m, sr = Some m -> neutral m) -> good l h -> good l (tween_x l sc pin pout sr h).
+Proof.
+  intros Hs Hh. unfold tween_x. apply good_seq; [apply good_hit0|].
+  apply good_bind; [exact Hh|]. intros r. apply good_seq.
+  - destruct sr as [m|]; [apply neutral_good; apply Hs; reflexivity|apply good_ret].
+  - apply good_seq; [apply good_hit0|apply good_ret].
+Qed.
+Lemma vsub_neutral sc subrun : (forall sr, subrun = Some sr -> neutral sr) -> forall sr, vsub sc subrun = Some sr -> neutral sr.
+Proof. unfold vsub. intros H sr. destruct (N.eqb (sub_place sc) 1); [discriminate|apply H]. Qed.
+Lemma tsub_neutral sc subrun : (forall sr, subrun = Some sr -> neutral sr) -> forall sr, tsub sc subrun = Some sr -> neutral sr.
+Proof. unfold tsub. intros H sr. destruct (N.eqb (sub_place sc) 1); [apply H|discriminate]. Qed.
+
 Lemma good_tween_chain ev l sc subrun :
   (forall sr, subrun = Some sr -> neutral sr) -> good l (tween_chain ev l sc subrun).
 Proof.
-  intros Hs. unfold tween_chain, excview_tween. apply good_tween. apply good_catch.
-  - apply good_tween. apply good_handle_request. exact Hs.
+  intros Hs. unfold tween_chain, excview_tween. apply good_tween_x; [apply tsub_neutral; exact Hs|]. apply good_catch.
+  - apply good_tween. apply good_handle_request. apply vsub_neutral. exact Hs.
   - intros k. apply good_error_handler.
 Qed.
 
@@ -217,7 +230,7 @@ Proof.
   intros Hs. unfold invoke_request, invoke_body, invoke_chain.
   apply good_finally; [|intros st st' r E T; eapply good_fin_cbs; [exact E|exact T]].
   apply good_bind.
-  - destruct tw; [apply good_tween_chain|apply good_handle_request]; exact Hs.
+  - destruct tw; [apply good_tween_chain; exact Hs|apply good_handle_request; apply vsub_neutral; exact Hs].
   - intros r. apply good_seq; [intros st st' r' E T; eapply good_resp_cbs; [exact E|exact T]|]. apply good_seq; [apply good_hit0|apply good_ret].
 Qed.
 
@@ -233,7 +246,7 @@ Fixpoint run_request_neutral (sc : scn) : forall ev l tw, neutral (run_request e
 Proof.
   intros ev l tw. destruct sc as [r fs rs sb]. simpl.
   apply neutral_fresh. apply neutral_frame. apply good_invoke_request.
-  intros sr Hsr. destruct sb as [|tw' sc']; [discriminate|].
+  intros sr Hsr. destruct sb as [|tw' pl' sc']; [discriminate|].
   injection Hsr as <-. apply run_request_neutral.
 Qed.
 
@@ -361,7 +374,7 @@ Qed.
 Local Open Scope N_scope.
 Definition ex_scn : scn :=
   Scn true [mkFault P_VIEW K_PLAIN 0] [mkReg P_OVER_IN 3 0; mkReg P_VIEW 3 0; mkReg P_FIN_CB 2 0; mkReg P_RESP_CB 1 0]
-      (Sub false (Scn false [mkFault P_RENDERER K_HTTP 0] [mkReg P_NEWREQ 3 0] NoSub)).
+      (Sub false 0 (Scn false [mkFault P_RENDERER K_HTTP 0] [mkReg P_NEWREQ 3 0] NoSub)).
 
 Example ex_run_with_excview :
   let '(st, r) := run_top 1 ex_scn [7; 7] in
